@@ -10,7 +10,7 @@ from ..absint import EvalRaise, EvalReturn, Evaluator, Opaque, Unknown
 from ..cfg import CFG, Node, describe_path, no_exc
 from ..effects import CONST, FRESH, SELF, Eff
 from ..program import FuncInfo, ancestors, enclosing_stmt, norm, parent, walk_local
-from .common import analysis_owned_solver_object, sub_nodes
+from .common import analysis_owned_solver_object, same_key_rebuild, sub_nodes
 
 EXPLANATION = (
     "Decided for all paths: (sync) every write to a reaction's bounds, stoichiometry or identifier (and a "
@@ -259,8 +259,8 @@ def check_sync_and_atomic(ctx) -> None:
             key = (fn.qualname.replace("cobra.", "", 1), norm(enclosing_stmt(w.node)))
             if esc is None:
                 ctx.ok("C01.atomic", fn, enclosing_stmt(w.node), "no raising exit between the write and its sync")
-            elif key in ATOMIC_EXCEPTIONS:
-                ctx.ok("C01.atomic", fn, enclosing_stmt(w.node), f"frozen exception: {ATOMIC_EXCEPTIONS[key]}")
+            elif key in ATOMIC_EXCEPTIONS or (key[0], "<same-key rebuild>") in ATOMIC_EXCEPTIONS and isinstance(enclosing_stmt(w.node), ast.Assign) and same_key_rebuild(fn, enclosing_stmt(w.node).targets[0], enclosing_stmt(w.node).value):
+                ctx.ok("C01.atomic", fn, enclosing_stmt(w.node), f"frozen exception: {ATOMIC_EXCEPTIONS.get(key) or ATOMIC_EXCEPTIONS[(key[0], '<same-key rebuild>')]}")
             elif _incoming(ctx, fn, w):
                 ctx.ok("C01.atomic", fn, enclosing_stmt(w.node), "object not yet part of the model when the operation can still fail", nontrivial=False)
             else:
@@ -268,7 +268,7 @@ def check_sync_and_atomic(ctx) -> None:
 
 
 ATOMIC_EXCEPTIONS = {
-    ("core.reaction.Reaction.__imul__", "self._metabolites = {met: value * coefficient for met, value in self._metabolites.items()}"):
+    ("core.reaction.Reaction.__imul__", "<same-key rebuild>"):
         "the only raising step before the sync is the bounds setter with (-ub, -lb), which preserves lb <= ub",
 }
 
